@@ -312,3 +312,56 @@ func vh_key_for() {
 	}
 	vObserve("same", s1 == s2)
 }
+
+// the same for a prepared statement inside a BATCH (executeBatch has its own copy of the check)
+func vh_batch_value_count() {
+	c := vConnWithCache(2)
+	key := c.session.stmtsLRU.keyFor(c.host.HostID(), c.currentKeyspace, "INSERT a")
+	ncols := vChoose("bind_columns", 3)
+	cols := make([]ColumnInfo, ncols)
+	for i := range cols {
+		cols[i] = ColumnInfo{Name: "c", TypeInfo: NativeType{proto: c.version, typ: TypeInt}}
+	}
+	actual := ncols
+	tupleAt := -1
+	if ncols > 0 && vBool("a_tuple_bind_marker") {
+		tupleAt = vChoose("tuple_at", ncols)
+		cols[tupleAt].TypeInfo = TupleTypeInfo{NativeType: NativeType{proto: c.version, typ: TypeTuple},
+			Elems: []TypeInfo{NativeType{proto: c.version, typ: TypeInt}, NativeType{proto: c.version, typ: TypeInt}}}
+		actual++
+	}
+	fl := &inflightPrepare{done: make(chan struct{}), preparedStatment: &preparedStatment{id: []byte{1}}}
+	fl.preparedStatment.request.columns = cols
+	fl.preparedStatment.request.colCount = ncols
+	fl.preparedStatment.request.actualColCount = actual
+	close(fl.done)
+	c.session.stmtsLRU.add(key, fl)
+	// a batch entry without arguments is sent as a plain query string (never prepared, nothing to count):
+	// the count check is about entries WITH bound values
+	nvals := 1 + vChoose("bound_values", 2)
+	var vals []interface{}
+	for i := 0; i < nvals; i++ {
+		if i == tupleAt {
+			vals = append(vals, []interface{}{int32(1), int32(2)})
+		} else {
+			vals = append(vals, int32(7))
+		}
+	}
+	b := &Batch{Type: LoggedBatch, context: &vCtx{done: make(chan struct{})}, Entries: []BatchEntry{{Stmt: "INSERT a", Args: vals}}}
+	iter := c.executeBatch(b.context, b)
+	sentBatch := 0
+	for _, l := range vExecLog {
+		if w, ok := l.other.(*writeBatchFrame); ok {
+			sentBatch++
+			if nvals == ncols {
+				vAssert(len(w.statements) == 1 && len(w.statements[0].values) == nvals && refBytesEq(w.statements[0].preparedID, []byte{1}), "C14/values/batch-right-count-is-sent-with-that-statements-id")
+			}
+		}
+	}
+	if nvals != ncols {
+		vAssert(iter != nil && iter.err != nil && sentBatch == 0, "C14/values/batch-wrong-count-is-an-error-and-nothing-is-sent")
+	} else {
+		vAssert(sentBatch == 1, "C14/values/batch-right-count-is-sent-with-that-statements-id")
+	}
+	vObserve("n", sentBatch)
+}
